@@ -10,9 +10,19 @@
      MIR_load_module         1915-1954   -> load_items / the Load case of step
      MIR_load_external       1959-1963   -> the LoadExternal case of step
      MIR_link                1987-2019   -> link_items / link_mods (first loop: binding)
-                             2061-2072   -> the queue is emptied (set_interface is never NULL here)
-   An error raised through the error function ends the history (the state becomes dead): the
-   default error function exits the process.  The order of effects before the error is kept. *)
+                             2061-2072   -> the queue is emptied, or kept when set_interface is NULL
+                                            (LinkNoIface)
+   Errors.  The default error function exits the process; a user error function must not return
+   but may longjmp, after which the context is used again.  The model describes that state:
+   - an error raised while a module is being BUILT (add_item) ends the history ([dead]): the public
+     API offers no way to go on (curr_func dangles);
+   - a rejected MIR_load_module (repeated_decl): the module is not queued.  The tree as pinned has
+     already updated the table of globals for the items up to and including the offending one
+     ([step false]); with fixes/C13-1.patch the check comes first and nothing is published
+     ([step true]).  The two variants agree on every history without a rejected load;
+   - a failed MIR_link (undeclared_op_ref): the addresses the resolver supplied before the failing
+     import stay registered, the queue is kept, no interface is set; a later link binds the
+     queued modules again. *)
 From Coq Require Import List Arith Bool.
 Import ListNotations.
 
@@ -172,12 +182,15 @@ Inductive op :=
 | Load (ds : list decl)
 | LoadExternal (n : name) (a : nat)
 | SetRedef (b : bool)
-| Link (r : resolver).
+| Link (r : resolver)
+| LinkNoIface (r : resolver).            (* MIR_link (ctx, NULL, r) *)
 
 Inductive output :=
 | OOk
 | OErr (e : err)
 | OLinked (bs : list (nat * list binding)) (resolved : list (name * nat))
+| OBound (bs : list (nat * list binding)) (resolved : list (name * nat))  (* LinkNoIface completed *)
+| OLinkFailed (resolved : list (name * nat))     (* undeclared_op_ref; resolver answers so far *)
 | OSkipped.
 
 (* MIR_load_module's item loop; i = index of the head of [items] in the module *)
@@ -206,7 +219,7 @@ Definition local_ref (id : nat) (m : modl) (n : name) : option defref :=
 
 (* MIR_link first loop over one module's items *)
 Fixpoint link_items (r : resolver) (id : nat) (m : modl) (items : list mitem) (e : envT)
-         (res : list (name * nat)) : (envT * list (name * nat) * list binding) + err :=
+         (res : list (name * nat)) : (envT * list (name * nat) * list binding) + (envT * list (name * nat)) :=
   match items with
   | [] => inl (e, res, [])
   | it :: rest =>
@@ -220,7 +233,7 @@ Fixpoint link_items (r : resolver) (id : nat) (m : modl) (items : list mitem) (e
               end
           | None =>
               match r (iname it) with
-              | None => inr EUndeclaredOpRef
+              | None => inr (e, res)
               | Some a =>
                   (* MIR_load_external (name, addr) *)
                   let e1 := fst (setup_global e (iname it) (DExt a)) in
@@ -240,7 +253,7 @@ Fixpoint link_items (r : resolver) (id : nat) (m : modl) (items : list mitem) (e
   end.
 
 Fixpoint link_mods (r : resolver) (ms : list lmod) (e : envT) (res : list (name * nat))
-  : (envT * list (name * nat) * list (nat * list binding)) + err :=
+  : (envT * list (name * nat) * list (nat * list binding)) + (envT * list (name * nat)) :=
   match ms with
   | [] => inl (e, res, [])
   | m :: rest =>
@@ -258,7 +271,8 @@ Definition kill (s : state) : state :=
   {| env := env s; to_link := to_link s; redef := redef s; nloads := nloads s; linked := linked s;
      dead := true |}.
 
-Definition step (s : state) (o : op) : state * output :=
+(* [atomic]: a rejected load publishes nothing (fixes/C13-1.patch); false = the pinned tree *)
+Definition step (atomic : bool) (s : state) (o : op) : state * output :=
   if dead s then (s, OSkipped) else
   match o with
   | Load ds =>
@@ -270,9 +284,9 @@ Definition step (s : state) (o : op) : state * output :=
       | inl m =>
           match load_items id (mitems m) 0 (env s) (redef s) with
           | (e', Some x) =>
-              (* the error is raised after the table update and before the module is queued *)
-              ({| env := e'; to_link := to_link s; redef := redef s; nloads := S id;
-                  linked := linked s; dead := true |}, OErr x)
+              (* the module is not queued; the history goes on *)
+              ({| env := if atomic then env s else e'; to_link := to_link s; redef := redef s;
+                  nloads := S id; linked := linked s; dead := false |}, OErr x)
           | (e', None) =>
               ({| env := e'; to_link := to_link s ++ [{| lid := id; lmd := m |}]; redef := redef s;
                   nloads := S id; linked := linked s; dead := false |}, OOk)
@@ -286,24 +300,38 @@ Definition step (s : state) (o : op) : state * output :=
           dead := false |}, OOk)
   | Link r =>
       match link_mods r (to_link s) (env s) [] with
-      | inr x => (kill s, OErr x)
+      | inr (e1, res) =>
+          ({| env := e1; to_link := to_link s; redef := redef s; nloads := nloads s;
+              linked := linked s; dead := false |}, OLinkFailed res)
       | inl (e', res, bs) =>
           ({| env := e'; to_link := []; redef := redef s; nloads := nloads s;
               linked := linked s ++ bs; dead := false |}, OLinked bs res)
       end
+  | LinkNoIface r =>
+      match link_mods r (to_link s) (env s) [] with
+      | inr (e1, res) =>
+          ({| env := e1; to_link := to_link s; redef := redef s; nloads := nloads s;
+              linked := linked s; dead := false |}, OLinkFailed res)
+      | inl (e', res, bs) =>
+          ({| env := e'; to_link := to_link s; redef := redef s; nloads := nloads s;
+              linked := linked s; dead := false |}, OBound bs res)
+      end
   end.
 
 (* a history and its trace of (operation, output) pairs *)
-Fixpoint run_from (s : state) (h : list op) : state * list (op * output) :=
+Fixpoint run_from (atomic : bool) (s : state) (h : list op) : state * list (op * output) :=
   match h with
   | [] => (s, [])
   | o :: r =>
-      let '(s1, out) := step s o in
-      let '(s2, tr) := run_from s1 r in
+      let '(s1, out) := step atomic s o in
+      let '(s2, tr) := run_from atomic s1 r in
       (s2, (o, out) :: tr)
   end.
 
-Definition run (h : list op) : state * list (op * output) := run_from init h.
+(* the behaviour the property describes: a rejected load has no effect *)
+Definition run (h : list op) : state * list (op * output) := run_from true init h.
+(* the pinned tree *)
+Definition run_pinned (h : list op) : state * list (op * output) := run_from false init h.
 
 (* ---------------------------------------------------------------- specification vocabulary *)
 
@@ -321,14 +349,17 @@ Definition exported (id : nat) (m : modl) : list (name * defref) := exported_fro
 Definition imports_of (m : modl) : list name :=
   map iname (filter (fun it => ikind_eqb (ik it) KImport) (mitems m)).
 
-(* the definitions a completed step made visible, in order: a successful Load publishes its
-   exported items; LoadExternal its address; a Link the addresses its resolver supplied.
+(* the definitions a step made visible, in order: a successful Load publishes its exported
+   items (a rejected one nothing); LoadExternal its address; a link - completed or failed - the
+   addresses its resolver supplied.
    [id] is the number of Loads before the step. *)
 Definition pubs_of_step (id : nat) (o : op) (out : output) : list (name * defref) :=
   match o, out with
   | Load ds, OOk => match build ds with inl m => exported id m | inr _ => [] end
   | LoadExternal n a, OOk => [(n, DExt a)]
-  | Link _, OLinked _ res => map (fun na => (fst na, DExt (snd na))) res
+  | Link _, OLinked _ res | Link _, OLinkFailed res
+  | LinkNoIface _, OBound _ res | LinkNoIface _, OLinkFailed res =>
+      map (fun na => (fst na, DExt (snd na))) res
   | _, _ => []
   end.
 
